@@ -197,8 +197,8 @@ pub fn render(p: &Program, deco: u64, spacing: u64, o: &Opts) -> Rendered {
     let mut deco_before: Vec<Deco> = vec![Deco::None; n + 1];
     let is_stmt_start = |i: usize| mark_at_tok.get(&i).is_some_and(|m| matches!(m.kind, 'S' | 'D'));
     let is_marked = |i: usize| mark_at_tok.get(&i).is_some_and(|m| matches!(m.kind, 'S' | 'D' | 'C'));
-    let line_comments = ["// c", "//c", "// comment with words", "//--------------------", "/// doc", "//x  ", "// é"];
-    let block_comments = ["{c}", "(* c *)", "{ a longer block comment }", "{}"];
+    let line_comments = ["// c", "//c", "// Comment With Words", "//--------------------", "/// Doc", "//X  ", "// é", "// TODO: End Begin"];
+    let block_comments = ["{c}", "(* C *)", "{ A Longer Block Comment }", "{}", "{Internal State}"];
     for i in 1..n {
         let mut r = gap_rng(deco, i, 1);
         let x: u32 = r.gen_range(0..1000);
@@ -234,9 +234,9 @@ pub fn render(p: &Program, deco: u64, spacing: u64, o: &Opts) -> Rendered {
                 if end < n && toks[end] == ";" {
                     end += 1;
                 }
-                let open = ["{$ifdef DEBUG}", "{$IFNDEF X}", "{$if Defined(A) and (B > 1)}", "(*$ifdef A*)"][r.gen_range(0..4)];
+                let open = ["{$ifdef DEBUG}", "{$IFNDEF X}", "{$if Defined(A) and (B > 1)}", "(*$ifdef A*)", "(*$ifNdef Abc *)", "{$ifopt R+}"][r.gen_range(0..6)];
                 dir_before[*b].push(open.to_string());
-                dir_before[end].insert(0, if open.starts_with("{$if ") { "{$ifend}" } else { "{$endif}" }.to_string());
+                dir_before[end].insert(0, if open.starts_with("{$if ") { ["{$ifend}", "(*$IfEnd*)"][r.gen_range(0..2)] } else { ["{$endif}", "{$endif}", "(*$endif*)", "(*$EndIf Debug *)"][r.gen_range(0..4)] }.to_string());
                 taken_until = end;
             }
         }
